@@ -293,6 +293,25 @@ pub fn rewrites(s: &S, goal: &Ty, fresh: usize, light: bool) -> Vec<(&'static st
     }) } {
         out.push(("R5/R6-inner", v));
     }
+    // R3 / R4 / R5 / R6 at an annotated definition: its right-hand side gets an unused local definition,
+    // is named by a local definition, is wrapped in an identity function annotated with the type the
+    // definition is declared to have, or in `if true`. (The declared type is known, whatever it is: a
+    // dependent or an implicit function type, a computed type.)
+    for v in at_each_position(s, false, &|t, _| {
+        let S::Let { name, ann: Some(ann), def, body } = t else { return vec![] };
+        if matches!(**def, S::Paren(_)) {
+            return vec![];
+        }
+        let wrap = |d: S| S::Let { name: name.clone(), ann: Some(ann.clone()), def: bx(S::Paren(bx(d))), body: body.clone() };
+        vec![
+            wrap(S::Let { name: format!("q{fresh}"), ann: Some(bx(S::Int)), def: bx(S::Lit("7".into())), body: def.clone() }),
+            wrap(S::Let { name: format!("k{fresh}"), ann: Some(ann.clone()), def: def.clone(), body: bx(S::Var(format!("k{fresh}"))) }),
+            wrap(S::App(bx(S::Lam { name: format!("w{fresh}"), implicit: false, ann: Some(ann.clone()), body: bx(S::Var(format!("w{fresh}"))) }), bx(S::Paren(def.clone())))),
+            wrap(S::If(bx(S::True), def.clone(), def.clone())),
+        ]
+    }) {
+        out.push(("R3/R4/R5/R6-definition", v));
+    }
     // R7: swap two function definitions of a group (adjacent or not) that do not mention each other.
     // Only the two functions move; the evaluation order of everything else in the group is unchanged.
     for v in at_each_position(s, false, &|t, in_let_body| {
@@ -411,7 +430,7 @@ fn search(initial: &S, goal: &Ty, depth: usize, horizon: usize, light: bool) {
                     count!("traces_validated");
                     next.push((t, p));
                 } else if matches!(b, Behaviour::Rejected("parse"))
-                    && name == "R5/R6-inner"
+                    && (name == "R5/R6-inner" || name == "R3/R4/R5/R6-definition")
                     && crate::findings::is_known("F-ORDER-SYNTACTIC")
                     && rejected_by_the_order_rule(&t, &text)
                 {
@@ -473,7 +492,19 @@ fn bfs_sweep(name: &str, tier: Tier, min_size: usize, max_size: usize, depth: us
 // applied to its surface trees).
 fn family_sweep(tier: Tier) -> Sweep {
     let g = crate::model::grammar::Grammar::load();
-    let texts: Rc<Vec<String>> = Rc::new(sem::nested_family());
+    let mut texts = sem::nested_family();
+    // values with implicit binders, stored under annotations that spell out the implicit function type
+    for p in [
+        "id : ({a : type} -> a -> a) = {a : type} => (x : a) => x; kopie : ({b : type} -> b -> b) = id; dd : (int -> int) = (n : int) => n + n; dd 20 + 2",
+        "id : ({a : type} -> a -> a) = {a : type} => (x : a) => x; 42",
+        "pick : ((a : type) -> {x : a} -> a -> a) = (a : type) => {x : a} => (y : a) => y; 7",
+        "t : type = {a : type} -> a -> a; ff : (t -> int) = (g : t) => 3; id : t = {a : type} => (x : a) => x; ff id",
+        "ff : (({a : type} -> a -> a) -> int) = (g : {a : type} -> a -> a) => 3; ff ({b : type} => (x : b) => x)",
+        "dep : ((a : type) -> (p : a -> type) -> (x : a) -> (h : (y : a) -> p y) -> p x) = (a : type) => (p : a -> type) => (x : a) => (h : (y : a) -> p y) => h x; 5",
+    ] {
+        texts.push(p.to_owned());
+    }
+    let texts: Rc<Vec<String>> = Rc::new(texts);
     let t2 = texts.clone();
     let horizon = tier.pick(500, 5_000);
     Sweep::new(
